@@ -32,9 +32,9 @@ func (c20) Assumptions() []string {
 
 func (c20) Batches(tier string, seed uint64) []core.Batch {
 	var b []core.Batch
-	b = append(b, spread("ok", 4, tierN(tier, 40, 400))...)
-	b = append(b, spread("fault", 4, tierN(tier, 60, 600))...)
-	b = append(b, spread("hostile", 4, tierN(tier, 30, 300))...)
+	b = append(b, spread("ok", 4, tierN(tier, 72, 400))...)
+	b = append(b, spread("fault", 4, tierN(tier, 120, 600))...)
+	b = append(b, spread("hostile", 4, tierN(tier, 60, 300))...)
 	if tier == "thorough" {
 		b = append(b, spread("strace", 8, 12)...)
 	}
